@@ -95,13 +95,13 @@ def _helper_read_frame(lit: LineIterator) -> tuple:
         resnums.append(int(line[:5]))
         resnames.append(line[5:10].split()[-1])
         attypes.append(line[10:15].split()[-1])
-        words = line[22:].split()
-        pos[i, 0] = float(words[0])
-        pos[i, 1] = float(words[1])
-        pos[i, 2] = float(words[2])
-        vel[i, 0] = float(words[3])
-        vel[i, 1] = float(words[4])
-        vel[i, 2] = float(words[5])
+        # Fixed-width fields: positions in columns 21-44 (3F8.3), velocities in columns 45-68 (3F8.4).
+        pos[i, 0] = float(line[20:28])
+        pos[i, 1] = float(line[28:36])
+        pos[i, 2] = float(line[36:44])
+        vel[i, 0] = float(line[44:52])
+        vel[i, 1] = float(line[52:60])
+        vel[i, 2] = float(line[60:68])
     pos *= nanometer  # atom coordinates are in nanometers
     vel *= nanometer / picosecond
     # Read the cell line
